@@ -61,6 +61,7 @@ static aligned_t          rets[MAXT];
 static unsigned           rstate[MAXT];
 static int                yield_den;
 static volatile int       fr_bad, fr_t, fr_k, fr_min;
+static unsigned           wd_secs = 20;
 
 static int who(void)
 {
@@ -218,6 +219,7 @@ int main(void)
 {
     static char line[1 << 16];
     signal(SIGALRM, on_alarm);
+    if (getenv("VERIF_WATCHDOG")) wd_secs = (unsigned)atoi(getenv("VERIF_WATCHDOG"));
     if (qthread_initialize() != 0) { printf("INITFAIL\n"); return 2; }
     int nsheps = (int)qthread_num_shepherds();
     printf("H %d %d\n", nsheps, (int)qthread_num_workers());
@@ -233,7 +235,7 @@ int main(void)
             E = (int)strtol(p, &e, 10); p = e;
             for (;;) { long r = strtol(p, &e, 10); if (e == p) break; p = e; if (nr < (1 << 14)) rs[nr++] = (int)r; }
             mode = 0; yield_den = 0; turn = -1;
-            alarm(20);
+            alarm(wd_secs);
             B = qt_barrier_create((size_t)maxb, REGION_BARRIER);
             spawn_all(nsheps);
             int k = 0, deadlock = 0;
@@ -278,7 +280,7 @@ int main(void)
             sscanf(line + 1, "%d %d %u %d", &N, &E, &seed, &yield_den);
             mode = 1; fr_bad = 0; fr_t = fr_k = fr_min = 0;
             for (int j = 0; j < N; j++) rstate[j] = seed * 2654435761u + (unsigned)j * 40503u + 1u;
-            alarm(20);
+            alarm(wd_secs);
             B = qt_barrier_create((size_t)N, REGION_BARRIER);
             spawn_all(nsheps);
             for (int j = 0; j < N; j++) qthread_readFF(NULL, &rets[j]);
